@@ -230,6 +230,28 @@ HARNESSES += [
       "every buffer of length <= 6 x every position of the first invalid byte (the verdict itself comes from simdutf8, trusted)", stubs=[CUT_SYNTAX]),
 ]
 
+HARNESSES += [
+    H("w_buffered_writer_short_writes", "main", ["C05"], ["writer::BufferedWriter::{write,reserve_with,flush_len}", "WriteExt for Vec<u8>"],
+      "inner writer accepting 1..=4 bytes per call x <= 4 symbolic committed bytes between two punctuation writes", stubs=[CUT_FMT]),
+    H("w_io_bufwriter_order", "main", ["C05"], ["WriteExt for io::BufWriter<W>::{reserve_with,flush_len}", "WriteExt for Vec<u8>"],
+      "one pending byte in the BufWriter followed by two committed bytes (symbolic values)", stubs=[CUT_FMT], exp_gb=6),
+]
+
+M_DOMSTR = "contract model: Parser::parse_string_owned / parse_string_inplace -> RFC 8259 string recogniser + string event (decoding itself is C09's subject)"
+M_DOMVAL = "contract model: Parser::parse_value / parse_value2 -> whitespace + abstract value recogniser E + value event (induction hypothesis)"
+HARNESSES += [
+    H("m_dom_object2_n8", "main", ["C02", "C03"], ["Parser::parse_object2 (copying DOM driver)", "Parser::parse_object_clo"],
+      "every buffer of length <= 8 after '{' x every E; whole event stream compared", stubs=[CUT_SYNTAX, M_WS, M_DOMSTR, M_DOMVAL], timeout=1200),
+    H("m_dom_array2_n7", "main", ["C02", "C03"], ["Parser::parse_array2 (copying DOM driver)", "nested! (depth budget)"],
+      "every buffer of length <= 7 after '[' without a directly nested '[' x every E; whole event stream compared",
+      stubs=[CUT_SYNTAX, M_WS, M_DOMSTR, "contract models: parse_number_visit / parse_literal_visit -> recogniser + leaf event; parse_object2 -> abstract E + value event"], timeout=1200),
+    H("m_dom_array_n7", "main", ["C02", "C03"], ["Parser::parse_array (in-place DOM driver)", "nested! (depth budget)"],
+      "every buffer of length <= 7 after '[' without a directly nested '[' x every E; whole event stream compared",
+      stubs=[CUT_SYNTAX, M_WS, M_DOMSTR, "contract models: parse_number_inplace / parse_literal_visit -> recogniser + leaf event; parse_object -> abstract E + value event"], timeout=1200),
+    H("m_dom_object_n8", "main", ["C02", "C03"], ["Parser::parse_object (in-place DOM driver)", "Parser::parse_object_clo"],
+      "every buffer of length <= 8 after '{' x every E; whole event stream compared", stubs=[CUT_SYNTAX, M_WS, M_DOMSTR, M_DOMVAL], timeout=1200),
+]
+
 CUT_PF = "cut: sonic_number::parse_float -> nondeterministic Ok(Float)/Err(FloatMustBeFinite) (classification and index only)"
 HARNESSES += [
     H("u_parse_number_int_len1_12", "number", ["C07", "C08"], ["sonic_number::parse_number (integer path)"],
@@ -249,6 +271,10 @@ HARNESSES += [
       stubs=["assumption: IEEE 754 division is correctly rounded"]),
     H("k_float_fast_div_e10", "number", ["C07"], ["sonic_number::parse_float_fast"], "E = -10, every significand < 2^16",
       stubs=["assumption: IEEE 754 division is correctly rounded"], tier="thorough", timeout=2400),
+    H("k_decimal_try_add_digit", "number", ["C01", "C07"], ["sonic_number::decimal::Decimal::try_add_digit"],
+      "every digit count 0..=MAX_DIGITS+4 x every digit (complete)"),
+    H("k_decimal_round_6", "number", ["C07"], ["sonic_number::decimal::Decimal::round"],
+      "every trimmed decimal of <= 6 significant digits x decimal point in -1..=7 x truncated flag"),
     H("k_pow10_tables", "number", ["C07"], ["POW10_FLOAT", "POW10_UINT"], "all 23 / 18 entries (complete)"),
 ]
 
@@ -282,10 +308,10 @@ HARNESSES += [
     H("x_arch_nonspace_fallback", "ext", ["C17", "C10", "C02"], ["util::arch::fallback::get_nonspace_bits"],
       "all 64-byte blocks, every lane (complete)", qname="harness::k_arch_nonspace_fallback"),
 ] + [
-    H("x_num_str2int_%d" % _k, "ext", ["C17", "C07"] if _k in (1, 8, 16) else ["C17"], ["sonic_number::arch::x86_64::simd_str2int", "sonic_number::arch::fallback::simd_str2int"],
+    H("x_num_str2int_%d" % _k, "ext", ["C17", "C07"] if _k in (1, 8) else ["C17"], ["sonic_number::arch::x86_64::simd_str2int", "sonic_number::arch::fallback::simd_str2int"],
       "need = %d, all 16-byte inputs whose first byte is a digit (complete under the callers' precondition)" % _k,
-      stubs=[INTR + "_mm_maddubs_epi16, _mm_madd_epi16, _mm_packus_epi32, _mm_sub_epi8 (wrapping)"], qname="harness::k_num_str2int_%d" % _k, timeout=1200)
-    for _k in range(1, 17)
+      stubs=[INTR + "_mm_maddubs_epi16, _mm_madd_epi16, _mm_packus_epi32, _mm_sub_epi8 (wrapping)"], qname="harness::k_num_str2int_%d" % _k, timeout=1200 if _k <= 8 else 5400, tier="quick" if _k <= 8 else "thorough")
+    for _k in range(1, 10)  # need = 10..16 did not finish within 20 minutes (64-bit multiply chains); see DESIGN.md
 ] + []
 
 BY_NAME = {h.name: h for h in HARNESSES}
